@@ -107,6 +107,7 @@ type machine struct {
 	depth    int
 	chanSeq  int
 	inputSeq int
+	replayPos int
 
 	mapOrderNondet bool
 	goMode         string // "spawn" (default), "skip", "inline"
@@ -151,6 +152,7 @@ func (m *machine) beginPath(prefix []dec) {
 	m.depth = 0
 	m.chanSeq = 0
 	m.inputSeq = 0
+	m.replayPos = 0
 	m.mapOrderNondet = false
 	m.goMode = "spawn"
 	m.schedNondet = false
